@@ -36,6 +36,21 @@ Theorem C14_read_past_end : forall content pos n,
   Z.of_nat (length content) <= pos -> cursor_read content pos n = ([], pos).
 Proof. exact cursor_read_past_end. Qed.
 
+(** a seek from the end is relative to the file's LENGTH, wherever the handle stands: the answer is
+    the same from every position; on success it is [length + o], which is also the new position;
+    on failure the position is kept *)
+Theorem C14_seek_end_ignores_position : forall content pos pos' o,
+  fst (mem_reader_seek content pos (SeekEnd o)) = fst (mem_reader_seek content pos' (SeekEnd o)) /\
+  (forall n, fst (mem_reader_seek content pos (SeekEnd o)) = Ok n ->
+     n = Z.of_nat (length content) + o /\ snd (mem_reader_seek content pos (SeekEnd o)) = n) /\
+  (forall e, fst (mem_reader_seek content pos (SeekEnd o)) = Err e ->
+     snd (mem_reader_seek content pos (SeekEnd o)) = pos).
+Proof. exact mem_reader_seek_end_ignores_position. Qed.
+Example C14_seek_end_example :
+  mem_reader_seek [1%N; 2%N; 3%N; 4%N] 3 (SeekEnd (-1)) = (Ok 3, 3) /\
+  fst (mem_reader_seek [1%N; 2%N; 3%N; 4%N] 4 (SeekEnd (-5))) = fail EIo.
+Proof. vm_compute. split; reflexivity. Qed.
+
 (** the write handle is a growable cursor: data lands at the position, earlier bytes
     stay, a gap is filled with zeros, later bytes stay *)
 Theorem C14_write_data : forall (buf : list N) pos (data : list N),
@@ -90,6 +105,8 @@ Example C14_capacity_example :
   (mstore mem_new [HMemWriter 0 [[102%N]] [97%N] 18446744073709551615] [] None, fail EIo).
 Proof. eapply refine_write_too_large; [reflexivity|discriminate|reflexivity]. Qed.
 
+Print Assumptions C14_seek_end_ignores_position.
+Print Assumptions C14_seek_end_example.
 Print Assumptions C14_reader_read.
 Print Assumptions C14_reader_seek.
 Print Assumptions C14_seek_before_start.
